@@ -177,9 +177,10 @@ class Clos(V):
 
 
 class FnRef(V):
-    def __init__(self, name, ctor=None):
+    def __init__(self, name, ctor=None, enum=None):
         self.name = name
         self.ctor = ctor
+        self.enum = enum
 
 
 class Action(V):
@@ -341,6 +342,9 @@ def pat_strs(p):
 class Evaluator:
     def __init__(self, repo, files, opaque=(), max_depth=MAX_DEPTH, alias=None, shallow=False, transparent=()):
         self.shallow = shallow
+        self.skip_loops = False
+        self.inline_files = None  # if set: only fns defined in these files are inlined (others summarised), except unit-enum helpers / transparent
+        self.strict = False       # strict: never fall back to an automatic summary when inlining fails
         self.transparent = set(transparent)
         self.alias = dict(alias or {})
         self.repo = repo
@@ -350,6 +354,9 @@ class Evaluator:
         self.decisions = {}
         self.effects = []
         self.store = {}
+        self.inferred = {}
+        self.invoked = set()
+        self.visited = set()
         self.depth = 0
         self.max_depth = max_depth
         self.summaries = set()
@@ -385,6 +392,8 @@ class Evaluator:
         """Resolve a symbolic enum/option/bool value to a concrete Tag/bool (asking for a decision)."""
         if isinstance(v, SymObj):
             ty = v.ty
+            if ty == ("named", "?") and v.path in self.inferred:
+                ty = self.inferred[v.path]
             if ty[0] == "opt":
                 d = self.decide(v.path, ["None", "Some"])
                 if d == "None":
@@ -407,6 +416,7 @@ class Evaluator:
     def run_fn(self, fi, args):
         """Evaluate fn `fi` with arg values (dict name->V)."""
         env = dict(args)
+        self.visited.add(("fn", fi.line, 0))
         try:
             return self.eval_block(fi.body, env)
         except ReturnEx as r:
@@ -431,6 +441,8 @@ class Evaluator:
         stmts = b["stmts"]
         for i, s in enumerate(stmts):
             k = s["k"]
+            if any(a["path"] == "cfg" and 'feature = "syn2"' in a["tokens"] and "not" not in a["tokens"] for a in (s.get("attrs") or [])):
+                continue  # the syn2 half of a cfg pair (C18 compares the halves); the default configuration is analysed
             if k == "Let":
                 if "init" in s:
                     v = self.eval(s["init"], env)
@@ -461,6 +473,8 @@ class Evaluator:
         if k == "PIdent":
             # an identifier pattern may be a unit-like constant (None) — handled as path
             if p["name"] == "None" and "sub" not in p:
+                if isinstance(v, SymObj) and v.ty == ("named", "?") and v.path not in self.inferred:
+                    self.inferred[v.path] = ("opt", ("named", "?"))
                 t = self.tag_of(v)
                 return isinstance(t, Tag) and t.name == "None"
             if "sub" in p:
@@ -475,6 +489,8 @@ class Evaluator:
         if k == "PTuple":
             if isinstance(v, SymObj) and v.ty[0] == "tuple":
                 v = TupleV([SymObj(f"{v.path}.{i}", t) for i, t in enumerate(v.ty[1])])
+            if isinstance(v, SymObj):
+                v = TupleV([SymObj(f"{v.path}.{i}", ("named", "?")) for i in range(len(p["elems"]))])
             if not isinstance(v, TupleV):
                 raise Unsupported("tuple pattern on " + vkey(v))
             elems = p["elems"]
@@ -497,6 +513,8 @@ class Evaluator:
             if isinstance(v, SymObj) and isinstance(self.decisions.get(v.path), str):
                 v = self.decisions[v.path]
             if isinstance(v, SymObj):
+                if isinstance(lv, bool) and v.ty == ("named", "?"):
+                    return self.decide(v.path, [False, True]) == lv
                 t = self.tag_of(v)
                 if isinstance(t, bool):
                     return t == lv
@@ -516,6 +534,8 @@ class Evaluator:
                     if not self.bind(f["pat"], v.fields[f["member"]], env):
                         return False
                 return True
+            if isinstance(v, SymObj) and v.ty == ("named", "?") and k == "PStruct" and name in self.types.structs:
+                v = SymObj(v.path, ("named", name))
             if isinstance(v, SymObj) and v.ty[0] == "named" and k == "PStruct" and v.ty[1] in self.types.structs and name == v.ty[1]:
                 for f in p["fields"]:
                     if not self.bind(f["pat"], self.field(v, f["member"]), env):
@@ -524,9 +544,27 @@ class Evaluator:
             if isinstance(v, SymObj) and not self._is_enumish(v):
                 segs_ = p["path"].split("::")
                 if len(segs_) >= 2 and self.types.enum_variants(segs_[-2]):
+                    self.inferred[v.path] = ("named", segs_[-2])
                     v = SymObj(v.path, ("named", segs_[-2]))
                 elif name in ("Some", "None") and len(segs_) == 1:
+                    self.inferred[v.path] = ("opt", ("named", "?"))
                     v = SymObj(v.path, ("opt", ("named", "?")))
+                elif name in ("Named", "Unnamed") and len(segs_) == 1:
+                    self.inferred[v.path] = ("named", "Member")
+                    v = SymObj(v.path, ("named", "Member"))
+                elif name in ("Ok", "Err") and len(segs_) == 1:
+                    d_ = self.decide(v.path, ["None", "Some"])
+                    if (d_ == "Some") != (name == "Ok"):
+                        return False
+                    if k == "PTupleStruct" and p["elems"]:
+                        return self.bind(p["elems"][0], SymObj(v.path + "!", ("named", "?")), env)
+                    return True
+                elif v.ty[0] == "named" and v.ty[1] == name and k == "PTupleStruct":
+                    # tuple struct pattern on a value of that struct type
+                    for i_, sp in enumerate(p["elems"]):
+                        if not self.bind(sp, self.field(v, str(i_)), env):
+                            return False
+                    return True
                 elif len(segs_) >= 2 and segs_[-2][:1].isupper():
                     # unknown external enum: one boolean atom per tested variant (first-match order preserved)
                     if not self.decide(f"{v.path} is {segs_[-2]}::{name}", [False, True]):
@@ -596,6 +634,8 @@ class Evaluator:
             return SymObj(base.path + "." + name, ("named", "?"))
         if isinstance(base, Tag) and base.name in ("Named", "Unnamed") and base.args:
             return self.field(base.args[0], name)
+        if isinstance(base, (Toks, Tag, FIdent)):
+            return SymObj("(" + vkey(base) + ")." + name, ("named", "?"))
         raise Unsupported(f"field {name} on {vkey(base)}")
 
     # -- tokens ---------------------------------------------------------------
@@ -665,13 +705,17 @@ class Evaluator:
     def call_closure(self, c, args):
         if isinstance(c, FnRef):
             if c.ctor:
-                return Tag(c.ctor, args)
+                return Tag(c.ctor, args, c.enum or {"Some": "Option", "Ok": "Result", "Err": "Result", "Named": "Member", "Unnamed": "Member"}.get(c.ctor))
+            if c.name == "TokenStream::new":
+                return Toks([])
             return self.call_fn(c.name, args)
         if isinstance(c, SymObj):
             self.effects.append(("call", c.path, [vkey(a) for a in args]))
             return SymObj(c.path + "(" + ", ".join(self.argkey(a) for a in args) + ")", ("named", "?"))
         if not isinstance(c, Clos):
             raise Unsupported("call of non-closure " + vkey(c))
+        if c.body.get("line"):
+            self.invoked.add(c.body["line"])
         env = dict(c.env)
         for p, a in zip(c.params, args):
             if not self.bind(p, a, env):
@@ -695,22 +739,21 @@ class Evaluator:
         return SymObj(key, ty or ("named", "?"))
 
     def argkey(self, a):
-        if isinstance(a, SymObj) and a.path in self.decisions and self._is_enumish(a) and a.ty[0] != "opt":
-            d = self.decisions[a.path]
-            return ("true" if d else "false") if isinstance(d, bool) else str(d)
         if isinstance(a, Tag) and a.origin:
-            return a.origin if a.enum in ("Option",) else a.name
+            return a.origin
         return vkey(a)
 
     def call_fn(self, name, args, node=None):
         fi = self.fn_index.get(name)
         if fi is None:
             raise Unsupported("unknown fn " + name)
-        if name in self.opaque or (self.shallow and name not in self.transparent):
+        if name in self.opaque or (self.shallow and name not in self.transparent) or (self.inline_files is not None and fi.file not in self.inline_files and name not in self.transparent):
             return self.summary(name, None, args, fi)
         try:
             return self.inline(fi, None, args)
         except Unsupported as u:
+            if self.strict:
+                raise
             self.summaries.add(f"auto:{name} ({u})")
             return self.summary(name, None, args, fi)
 
@@ -730,6 +773,7 @@ class Evaluator:
                     raise Unsupported("param bind")
                 ai += 1
         self.depth += 1
+        self.visited.add(("fn", fi.line, 0))
         try:
             try:
                 return self.eval_block(fi.body, env)
@@ -750,12 +794,15 @@ class Evaluator:
         if tyname and (tyname, name) in self.method_index:
             fi = self.method_index[(tyname, name)]
             unit_enum = tyname in self.types.enums and all(x[3] == "unit" for x in self.types.enums[tyname])
-            if name in self.opaque or f"{tyname}::{name}" in self.opaque or (self.shallow and not unit_enum and name not in self.transparent):
+            if name in self.opaque or f"{tyname}::{name}" in self.opaque or (self.shallow and not unit_enum and name not in self.transparent) or \
+                    (self.inline_files is not None and fi.file not in self.inline_files and not unit_enum and name not in self.transparent):
                 return self.summary(name, recv, args, fi)
             saved = (dict(self.decisions),)
             try:
                 return self.inline(fi, recv, args)
             except Unsupported as u:
+                if self.strict:
+                    raise
                 # fall back to a typed summary of the callee (modular analysis)
                 self.summaries.add(f"auto:{tyname}::{name} ({u})")
                 return self.summary(name, recv, args, fi)
@@ -784,6 +831,9 @@ class Evaluator:
             if name == "not":
                 return not b
         # Option
+        if isinstance(recv, SymObj) and recv.ty == ("named", "?") and name in ("is_some", "is_none", "unwrap_or", "map_or", "is_some_and", "and_then", "or_else",
+                                                                                  "unwrap_or_default", "unwrap_or_else", "ok_or", "is_none_or", "map_or_else"):
+            recv = SymObj(recv.path, ("opt", ("named", "?")))
         is_opt = (isinstance(recv, Tag) and recv.name in ("Some", "None")) or (isinstance(recv, SymObj) and recv.ty[0] == "opt")
         if is_opt:
             if name in ("is_some", "is_none", "map", "or_else", "unwrap_or", "map_or", "unwrap", "expect", "and_then", "is_some_and",
@@ -833,6 +883,11 @@ class Evaluator:
                     return t if self.truth(self.call_closure(args[0], [inner])) else Tag("None", [], "Option")
         # lists
         if isinstance(recv, ListV):
+            if name in ("sort_by", "sort", "sort_by_key", "sort_unstable_by", "sort_unstable", "reverse", "dedup"):
+                self.effects.append(("list", name))
+                return UNIT
+            if name in ("iter", "into_iter", "iter_mut"):
+                return SymObj("iter(" + vkey(recv) + ")", ("iter", ("named", "?")))
             if name == "push":
                 recv.elems.append(args[0])
                 return UNIT
@@ -854,6 +909,9 @@ class Evaluator:
             self.effects.append((recv.path, name, [vkey(a) for a in args]))
             r = SymObj(recv.path + "." + name + "(" + ", ".join(self.argkey(a) for a in args) + ")", self.std_ret(recv, name))
             return r
+        if isinstance(recv, (Tag, Toks, ListV, TupleV, StructV, FIdent)) or isinstance(recv, (str, int)):
+            self.effects.append((vkey(recv)[:60], name, [vkey(a)[:60] for a in args]))
+            return SymObj("(" + vkey(recv) + ")." + name + "(" + ", ".join(self.argkey(a) for a in args) + ")", ("named", "?"))
         raise Unsupported(f"method {name} on {vkey(recv)}")
 
     def std_ret(self, recv, name):
@@ -910,7 +968,7 @@ class Evaluator:
                 if name == vn:
                     if kind == "unit":
                         return Tag(vn, [], en)
-                    return FnRef(f"{en}::{vn}", ctor=vn)
+                    return FnRef(f"{en}::{vn}", ctor=vn, enum=en)
         if en == "TokenStream" and vn == "new":
             return FnRef("TokenStream::new")
         if en == "Span" and vn == "call_site":
@@ -982,6 +1040,8 @@ class Evaluator:
 
     def _is_enumish(self, v):
         ty = v.ty
+        if ty == ("named", "?") and v.path in self.inferred:
+            ty = self.inferred[v.path]
         return ty[0] in ("opt", "bool") or (ty[0] == "named" and self.types.enum_variants(ty[1]))
 
     def assign(self, target, v, env):
@@ -1037,6 +1097,7 @@ class Evaluator:
         return v
 
     def e_If(self, e, env):
+        self.visited.add(("if", e["line"], e["col"]))
         c = e["cond"]
         if c["k"] == "LetExpr":
             v = self.eval(c["expr"], env)
@@ -1064,6 +1125,7 @@ class Evaluator:
         return self.eval(b, env)
 
     def e_Match(self, e, env):
+        self.visited.add(("match", e["line"], e["col"]))
         v = self.eval(e["scrut"], env)
         v = self.resolve_str(v, [a["pat"] for a in e["arms"]])
         for a in e["arms"]:
@@ -1110,6 +1172,7 @@ class Evaluator:
     def e_Index(self, e, env):
         base = self.eval(e["expr"], env)
         idx = self.eval(e["index"], env)
+        self.visited.add(("index", e["line"], e["col"]))
         if isinstance(base, ListV) and isinstance(idx, int) and not isinstance(idx, bool):
             if idx >= len(base.elems):
                 raise PanicReached("index", render(e), e["line"])
@@ -1139,6 +1202,8 @@ class Evaluator:
                     return Tag(name, args, "Member")
                 if name in self.fn_index:
                     return self.call_fn(name, args, e)
+                if name[:1].isupper():
+                    return StructV(name, {str(i): a for i, a in enumerate(args)})
                 raise Unsupported("call " + name)
             en = segs[-2]
             if en == "Member" and name in ("Named", "Unnamed"):
@@ -1160,11 +1225,14 @@ class Evaluator:
                 return SymObj("Span::" + name + "()", ("named", "Span"))
             if (en, name) in self.method_index:
                 fi = self.method_index[(en, name)]
-                if name in self.opaque or f"{en}::{name}" in self.opaque or (self.shallow and name not in self.transparent):
+                if name in self.opaque or f"{en}::{name}" in self.opaque or (self.shallow and name not in self.transparent) or \
+                        (self.inline_files is not None and fi.file not in self.inline_files and name not in self.transparent):
                     return self.summary(f"{en}::{name}", None, args, fi)
                 try:
                     return self.inline(fi, None, args)
                 except Unsupported as u:
+                    if self.strict:
+                        raise
                     self.summaries.add(f"auto:{en}::{name} ({u})")
                     return self.summary(f"{en}::{name}", None, args, fi)
             if en == "Default" and name == "default":
@@ -1178,6 +1246,20 @@ class Evaluator:
     def e_MethodCall(self, e, env):
         recv = self.eval(e["recv"], env)
         args = [self.eval(a, env) for a in e["args"]]
+        if e["method"] in ("unwrap", "expect"):
+            self.visited.add(("unwrap", e["mline"], e["col"]))
+            if isinstance(recv, SymObj) and recv.ty[0] not in ("opt", "result") and not (recv.ty[0] == "named" and recv.ty[1] != "?"):
+                if self.decide(recv.path, ["None", "Some"]) == "None":
+                    raise PanicReached("unwrap", render(e["recv"]), e["mline"])
+                return SymObj(recv.path + "!", ("named", "?"))
+            if isinstance(recv, SymObj) and recv.ty[0] == "result":
+                if self.decide(recv.path, ["None", "Some"]) == "None":
+                    raise PanicReached("unwrap", render(e["recv"]), e["mline"])
+                return SymObj(recv.path + "!", recv.ty[1])
+            if isinstance(recv, Tag) and recv.name in ("Ok",) and recv.args:
+                return recv.args[0]
+            if isinstance(recv, Tag) and recv.name == "Err":
+                raise PanicReached("unwrap", render(e["recv"]), e["mline"])
         return self.method(recv, e["method"], args, e, env)
 
     def e_Macro(self, e, env):
@@ -1185,6 +1267,7 @@ class Evaluator:
         if n in QUOTE_MACROS:
             return self.quote(e, env)
         if n in ("unreachable", "todo", "panic", "unimplemented"):
+            self.visited.add(("panic", e["line"], e["col"]))
             marker = ""
             if e.get("args"):
                 a0 = e["args"][0]
@@ -1224,10 +1307,51 @@ class Evaluator:
             return SymObj("format(" + (str(args[0]["lit"]["v"]) if args and args[0]["k"] == "Lit" else "?") + "; " + ", ".join(vkey(v) for v in vals) + ")", ("str",))
         raise Unsupported("macro " + n)
 
+    def havoc_assigned(self, body, env):
+        from .src import walk
+        for n in walk(body):
+            tgt = None
+            if n["k"] == "Assign":
+                tgt = n["l"]
+            elif n["k"] == "Binary" and n["op"] in ("+=", "-="):
+                tgt = n["l"]
+            if tgt is not None and tgt["k"] == "Path" and len(tgt["segs"]) == 1 and tgt["segs"][0] in env:
+                env[tgt["segs"][0]] = SymObj(f"loop({tgt['segs'][0]})", ("named", "?"))
+            if n["k"] == "MethodCall" and n["method"] in ("push", "extend", "insert", "push_str", "append"):
+                r_ = n["recv"]
+                while r_["k"] in ("Ref", "Field"):
+                    r_ = r_["expr"] if r_["k"] == "Ref" else r_["base"]
+                if r_["k"] == "Path" and len(r_["segs"]) == 1 and isinstance(env.get(r_["segs"][0]), ListV):
+                    env[r_["segs"][0]].elems.append(Toks([("rep", "loop:" + r_["segs"][0])]))
+
     def e_While(self, e, env):
-        raise Unsupported("while loop")
+        if self.skip_loops:
+            self.effects.append(("loop-skipped", e["line"]))
+            self.havoc_assigned(e["body"], env)
+            return UNIT
+        env2 = dict(env)
+        self.effects.append(("while", render(e["cond"])[:60]))
+        enter = True
+        if e["cond"]["k"] == "LetExpr":
+            src = self.eval(e["cond"]["expr"], env2)
+            enter = self.bind(e["cond"]["pat"], src, env2)
+        else:
+            enter = self.truth(self.eval(e["cond"], env2))
+        if enter:
+            try:
+                self.eval_block(e["body"], env2)
+            except (ContinueEx, BreakEx):
+                pass
+            for k2 in list(env.keys()):
+                if k2 in self._last_env and self._last_env[k2] is not env[k2]:
+                    env[k2] = SymObj(f"loop({k2})", ("named", "?"))
+        return UNIT
 
     def e_For(self, e, env):
+        if self.skip_loops:
+            self.effects.append(("loop-skipped", e["line"]))
+            self.havoc_assigned(e["body"], env)
+            return UNIT
         # over-approximation: the body is analysed once with a symbolic element; variables it assigns are havocked
         it = self.eval(e["iter"], env)
         env2 = dict(env)
@@ -1246,7 +1370,7 @@ class Evaluator:
 
 # ---------------------------------------------------------------------------- driver
 class Leaf:
-    __slots__ = ("decisions", "value", "panic", "effects", "unsupported", "arm_line", "summaries")
+    __slots__ = ("decisions", "value", "panic", "effects", "unsupported", "arm_line", "summaries", "visited")
 
     def __init__(self, decisions, value=None, panic=None, effects=None, unsupported=None, arm_line=None, summaries=None):
         self.decisions = decisions
@@ -1256,6 +1380,7 @@ class Leaf:
         self.unsupported = unsupported
         self.arm_line = arm_line
         self.summaries = summaries or set()
+        self.visited = set()
 
     def get(self, atom, default=None):
         return self.decisions.get(atom, default)
@@ -1267,6 +1392,12 @@ class Leaf:
         if self.unsupported:
             return f"[{d}] -> UNSUPPORTED {self.unsupported}"
         return f"[{d}] -> {vkey(self.value)}"
+
+
+def _mk_leaf(ev, *a, **kw):
+    lf = Leaf(*a, **kw)
+    lf.visited = set(ev.visited)
+    return lf
 
 
 def explore(make_eval, run, preset=None, limit=20000, constraint=None):
@@ -1290,13 +1421,15 @@ def explore(make_eval, run, preset=None, limit=20000, constraint=None):
         ev.last_arm = None
         ev.effects = []
         ev.store = {}
+        ev.inferred = {}
+        ev.visited = set()
         ev.summaries = set()
         ev.depth = 0
         try:
             v = run(ev)
-            leaves.append(Leaf(dec, value=v, effects=ev.effects, arm_line=(ev.last_arm or {}).get("line"), summaries=ev.summaries))
+            leaves.append(_mk_leaf(ev, dec, value=v, effects=ev.effects, arm_line=(ev.last_arm or {}).get("line"), summaries=ev.summaries))
         except ReturnEx as r_:
-            leaves.append(Leaf(dec, value=r_.value, effects=ev.effects, summaries=ev.summaries))
+            leaves.append(_mk_leaf(ev, dec, value=r_.value, effects=ev.effects, summaries=ev.summaries))
         except NeedDecision as nd:
             for val in reversed(nd.domain):
                 d2 = dict(dec)
@@ -1304,9 +1437,58 @@ def explore(make_eval, run, preset=None, limit=20000, constraint=None):
                 if constraint is None or constraint(d2):
                     stack.append(d2)
         except PanicReached as p:
-            leaves.append(Leaf(dec, panic=(p.kind, p.marker, p.line), effects=ev.effects, summaries=ev.summaries))
+            leaves.append(_mk_leaf(ev, dec, panic=(p.kind, p.marker, p.line), effects=ev.effects, summaries=ev.summaries))
         except (ContinueEx, BreakEx) as c:
-            leaves.append(Leaf(dec, value=("continue" if isinstance(c, ContinueEx) else "break"), effects=ev.effects, summaries=ev.summaries))
+            leaves.append(_mk_leaf(ev, dec, value=("continue" if isinstance(c, ContinueEx) else "break"), effects=ev.effects, summaries=ev.summaries))
         except Unsupported as u:
-            leaves.append(Leaf(dec, unsupported=str(u), effects=ev.effects, summaries=ev.summaries))
+            leaves.append(_mk_leaf(ev, dec, unsupported=str(u), effects=ev.effects, summaries=ev.summaries))
     return leaves
+
+
+# ---------------------------------------------------------------------------- parallel driver
+_PAR = {}
+
+
+def _par_worker(preset):
+    mk, run, constraint, limit = _PAR["args"]
+    return explore(mk, run, preset=preset, limit=limit, constraint=constraint)
+
+
+def explore_parallel(make_eval, run, preset=None, limit=200000, constraint=None, jobs=8, fanout=64):
+    """Same result set as explore(); the decision tree is split after a sequential prefix and subtrees are explored in forked workers.
+    Leaves must be picklable (callers convert values before returning them from `run`)."""
+    import multiprocessing as mp
+    frontier = [dict(preset or {})]
+    done = []
+    shared = make_eval()
+    # breadth-first expansion until enough independent subtrees exist
+    while frontier and len(frontier) < fanout:
+        dec = frontier.pop(0)
+        ev = shared
+        ev.decisions = dict(dec)
+        ev.last_arm = None
+        ev.effects = []
+        ev.store = {}
+        ev.inferred = {}
+        ev.visited = set()
+        ev.summaries = set()
+        ev.depth = 0
+        try:
+            run(ev)
+            done.append(dec)          # complete without further decisions: re-run in a worker to build the leaf
+        except NeedDecision as nd:
+            for val in nd.domain:
+                d2 = dict(dec)
+                d2[nd.atom] = val
+                if constraint is None or constraint(d2):
+                    frontier.append(d2)
+        except Exception:
+            done.append(dec)
+    work = done + frontier
+    _PAR["args"] = (make_eval, run, constraint, limit)
+    ctx = mp.get_context("fork")
+    out = []
+    with ctx.Pool(jobs) as pool:
+        for part in pool.imap_unordered(_par_worker, work, chunksize=1):
+            out.extend(part)
+    return out
